@@ -17,6 +17,7 @@ EXPLANATION = (
     "(reversed,'big'); [FE-COMBINED] already_combined is True only where the format carries whole messages. After the funnel the code is literally "
     "the same function. [ENDIAN] _call_decode_function converts with 'big'. UNDECIDED: library text parsing on exotic tokens (strptime, "
     "int(x,16) on malformed input), equality of frame-wise and pre-assembled delivery (needs C04's reassembly)."
+    ' Fifth round: [ENDIAN] is decided on the interpreted decode path: eight symbolic wire bytes handed to _decode last byte first must reach the generated decoder as the integer with wire byte j at bits 8j..8j+7, whatever conversion is used; the reading of int.from_bytes only confirms.'
 )
 ASSUMPTIONS = ["CPython ast parser", "absint.py / bitprov.py transfer functions", "str.split / int(x,16) / bytes.fromhex semantics on well-formed tokens"]
 
